@@ -5,8 +5,8 @@ only on mint/burn, failed calls are inert, notifications come in pairs and repla
 
 Property theorems only; helper lemmas are in `NeoFS/Lemmas/Balance.lean`, `BalanceMore.lean`,
 `BalanceEvents.lean`, the model in `NeoFS/Model/Balance.lean`.
-`WFOp` is the property's quantifier: Alphabet-only methods get 20-byte addresses, lock targets are
-fresh. Theorems that do not mention `WFOp`/`SInv` hold for every state and every argument. -/
+`WFOp` is the property's quantifier: Alphabet-only methods get 20-byte addresses, lock targets hold
+no funds (a fresh address, or an empty record left there by e.g. a zero-amount transfer). Theorems that do not mention `WFOp`/`SInv` hold for every state and every argument. -/
 namespace NeoFS.Props.C01
 open NeoFS NeoFS.Balance
 
@@ -79,18 +79,18 @@ example : ¬ Paired [.transfer A L 100, .transferX A L 99 []] := by decide
 example : ¬ Paired [.transfer A L 100] := by decide
 
 /-- Replaying the `Transfer` notifications of a HALTed invocation over the old balances gives the
-new balance of every account. Needs the quantifier `WFOp` only for the freshness of lock targets;
-no invariant on `s` is needed. -/
+new balance of every account. Needs the quantifier `WFOp` only for "the lock target holds no
+funds" (`Lock` overwrites the target record without notifying); no invariant on `s` is needed. -/
 theorem events_replay (s : State) (env : Env) (op : Op) (r : Option Bool) (ev : List Event)
     (hw : WFOp s op) (h : (invoke s env op).2 = some (r, ev)) (k : Hash) :
     (getAcc (invoke s env op).1.accts k).bal = applyEvents (fun k => (getAcc s.accts k).bal) ev k :=
-  congrFun (replay_step _ _ _ _ _ _ (lockFresh_of_wf s op hw) (invoke_some_inv _ _ _ _ _ h)) k
+  congrFun (replay_step _ _ _ _ _ _ (lockZero_of_wf s op hw) (invoke_some_inv _ _ _ _ _ h)) k
 
 /-- The concatenated notification stream of a whole history (FAULTed invocations contribute
 nothing) replays from the all-zero balance function to the final balance of every account. -/
 theorem events_replay_histories (hist : List (Env × Op)) (hw : WFHist init hist) (k : Hash) :
     (getAcc (run init hist).accts k).bal = applyEvents (fun _ => 0) (histEvents init hist) k :=
-  congrFun (replay_hist hist init (lockFreshHist_of_wf hist init hw)) k
+  congrFun (replay_hist hist init (lockZeroHist_of_wf hist init hw)) k
 
 example : histEvents init demo =
     [.transfer [] A 1000, .transferX [] A 1000 [1], .transfer A B 300, .transferX A B 300 [],
@@ -106,5 +106,18 @@ theorem model_constants_match_sources :
     NeoFS.Generated.common_mintPrefix = [1] ∧ NeoFS.Generated.common_burnPrefix = [2] ∧
     NeoFS.Generated.common_lockPrefix = [3] ∧ NeoFS.Generated.common_unlockPrefix = [4] ∧
     NeoFS.Generated.balance_accPrefix = 97 ∧ NeoFS.Generated.balance_circulation = "MainnetGAS" := by decide
+
+-- a lock target that is NOT fresh: a zero-amount transfer left the empty record ⟨0,0,[]⟩ there;
+-- the history is inside the quantifier, the lock overwrites the record, the replay still holds
+def demoZ : List (Env × Op) :=
+  [(alpha, .mint A 1000 []), (asA, .transfer A L 0), (alpha, .lock [7] A L 100 2)]
+example : L ∈ (run init (demoZ.take 2)).accts.map (·.1) ∧
+    getAcc (run init (demoZ.take 2)).accts L = ⟨0, 0, []⟩ := by decide
+example : WFHist init demoZ := by
+  simp only [demoZ, WFHist, WFOp]; decide
+example : getAcc (run init demoZ).accts L = ⟨100, 2, A⟩ ∧ (run init demoZ).supply = 1000 ∧
+    total (run init demoZ).accts = 1000 := by decide
+example : applyEvents (fun _ => 0) (histEvents init demoZ) L = 100 ∧
+    applyEvents (fun _ => 0) (histEvents init demoZ) A = 900 := by decide
 
 end NeoFS.Props.C01
